@@ -230,6 +230,7 @@ impl World {
                 }
                 Stmt::KillSelf(sig) => return Err(EvalErr::Fail(-*sig)),
                 Stmt::MkDirs => {}
+                Stmt::ErrBg { .. } => {}
             }
         }
         let bytes = assemble(&lines, pad);
